@@ -44,6 +44,9 @@ pub enum Val {
     Section { len: usize, seed: u32 },
     /// a `Type` on its own (one byte)
     Type(usize),
+    /// a well-formed TLV section given as a `TypeLengthValues` iterator on which `next()` has already
+    /// been called `advance` times (a partly consumed iterator is still the whole section)
+    Tlvs { items: Vec<(u8, usize, u32)>, advance: usize },
 }
 
 #[derive(Clone, Debug, PartialEq)]
@@ -119,6 +122,7 @@ impl Val {
             Val::TupleType { ty, len, seed } => json!({"tuple_type": {"type": enc::TYPE_CODES[*ty].0, "len": len, "seed": seed}}),
             Val::Section { len, seed } => json!({"section": {"len": len, "seed": seed}}),
             Val::Type(ty) => json!({"type": enc::TYPE_CODES[*ty].0}),
+            Val::Tlvs { items, advance } => json!({"tlvs": {"items": items.iter().map(|(k, l, s)| json!({"kind": k, "len": l, "seed": s})).collect::<Vec<_>>(), "advance": advance}}),
         }
     }
     pub fn from_json(v: &Value) -> Option<Val> {
@@ -156,6 +160,15 @@ impl Val {
         }
         if let Some(o) = v.get("type") {
             return Some(Val::Type(ty_of(o)?));
+        }
+        if let Some(o) = v.get("tlvs") {
+            let items: Option<Vec<(u8, usize, u32)>> = o
+                .get("items")?
+                .as_array()?
+                .iter()
+                .map(|i| Some((i.get("kind")?.as_u64()? as u8, i.get("len")?.as_u64()? as usize, i.get("seed")?.as_u64()? as u32)))
+                .collect();
+            return Some(Val::Tlvs { items: items?, advance: o.get("advance")?.as_u64()? as usize });
         }
         None
     }
@@ -313,7 +326,21 @@ pub fn gen_addr(t: &mut Tape) -> RefAddr2 {
 }
 
 pub fn gen_val(t: &mut Tape, big_per_mille: u32) -> Val {
-    match t.weighted(&[4, 4, 2, 4, 3, 3, 2, 1]) {
+    match t.weighted(&[4, 4, 2, 4, 3, 3, 2, 1, 2]) {
+        8 => {
+            let n = t.usize_in(0, 4);
+            let items: Vec<(u8, usize, u32)> = (0..n)
+                .map(|_| {
+                    let len = match t.weighted(&[5, 1]) {
+                        0 => t.usize_in(0, 24),
+                        _ => *t.pick(&[255usize, 256, 257]),
+                    };
+                    (t.byte(), len, t.u32())
+                })
+                .collect();
+            let advance = t.usize_in(0, n + 1);
+            Val::Tlvs { items, advance }
+        }
         0 => {
             let ty = t.below(12) as usize;
             let image = match t.weighted(&[2, 1, 1, 3]) {
@@ -430,6 +457,7 @@ fn retype(like: &Val, t: &mut Tape, big: u32) -> Val {
         Val::TupleType { .. } => Val::TupleType { ty: t.below(12) as usize, len: gen_len(t, big), seed: t.u32() },
         Val::Section { .. } => Val::Section { len: gen_len(t, big), seed: t.u32() },
         Val::Type(_) => Val::Type(t.below(12) as usize),
+        Val::Tlvs { .. } => Val::Tlvs { items: vec![(t.byte(), t.usize_in(0, 9), t.u32())], advance: t.usize_in(0, 2) },
     }
 }
 
@@ -452,6 +480,13 @@ pub fn ref_encoding(v: &Val) -> Option<Vec<u8>> {
         Val::TupleType { ty, len, seed } => enc::enc_tlv(enc::TYPE_CODES[*ty].1, &fill(*seed, *len)),
         Val::Section { len, seed } => Some(fill(*seed, *len)),
         Val::Type(ty) => Some(vec![enc::TYPE_CODES[*ty].1]),
+        Val::Tlvs { items, .. } => {
+            let mut out = Vec::new();
+            for (k, l, s) in items {
+                out.extend(enc::enc_tlv(*k, &fill(*s, *l))?);
+            }
+            Some(out)
+        }
     }
 }
 
@@ -463,6 +498,7 @@ pub fn ref_size(v: &Val) -> usize {
         Val::Addr(a) => NEED[enc::family_code(a) as usize],
         Val::Tlv { len, .. } | Val::TupleU8 { len, .. } | Val::TupleType { len, .. } => 3 + *len,
         Val::Type(_) => 1,
+        Val::Tlvs { items, .. } => items.iter().map(|(_, l, _)| 3 + *l).sum(),
     }
 }
 
@@ -504,6 +540,8 @@ macro_rules! with_int {
 pub fn content(v: &Val) -> Vec<u8> {
     match v {
         Val::Bytes { len, seed } | Val::Tlv { len, seed, .. } | Val::TupleU8 { len, seed, .. } | Val::TupleType { len, seed, .. } | Val::Section { len, seed } => fill(*seed, *len),
+        // the section bytes, encoded by the harness itself
+        Val::Tlvs { items, .. } => gen::enc_tlv_list(&items.iter().map(|(k, l, s)| (*k, fill(*s, *l))).collect::<Vec<_>>()),
         _ => Vec::new(),
     }
 }
@@ -525,7 +563,17 @@ pub fn write_val(v: &Val, data: &[u8], w: &mut Writer) -> io::Result<usize> {
         Val::TupleType { ty, .. } => (TYPES[*ty], data).write_to(w),
         Val::Section { .. } => TypeLengthValues::from(data).write_to(w),
         Val::Type(ty) => TYPES[*ty].write_to(w),
+        Val::Tlvs { advance, .. } => advanced(data, *advance).write_to(w),
     }
+}
+
+/// The section as an iterator on which `next()` has been called `n` times.
+pub fn advanced(data: &[u8], n: usize) -> TypeLengthValues<'_> {
+    let mut it = TypeLengthValues::from(data);
+    for _ in 0..n {
+        let _ = it.next();
+    }
+    it
 }
 
 /// `value.to_bytes()` through the value's own impl.
@@ -539,6 +587,7 @@ pub fn to_bytes_val(v: &Val, data: &[u8]) -> io::Result<Vec<u8>> {
         Val::TupleType { ty, .. } => (TYPES[*ty], data).to_bytes(),
         Val::Section { .. } => TypeLengthValues::from(data).to_bytes(),
         Val::Type(ty) => TYPES[*ty].to_bytes(),
+        Val::Tlvs { advance, .. } => advanced(data, *advance).to_bytes(),
     }
 }
 
@@ -599,6 +648,14 @@ fn payload(b: Builder, v: &Val, data: &[u8], by_ref: bool) -> io::Result<Builder
                 b.write_payload(TYPES[*ty])
             }
         }
+        Val::Tlvs { advance, .. } => {
+            let it = advanced(data, *advance);
+            if by_ref {
+                b.write_payload(&it)
+            } else {
+                b.write_payload(it)
+            }
+        }
     }
 }
 
@@ -631,6 +688,7 @@ fn batch_native(b: Builder, vs: &[Val], datas: &[Vec<u8>]) -> io::Result<Builder
         Val::TupleType { .. } => b.write_payloads(vs.iter().zip(datas).map(|(v, d)| (TYPES[if let Val::TupleType { ty, .. } = v { *ty } else { 0 }], d.as_slice()))),
         Val::Section { .. } => b.write_payloads(datas.iter().map(|d| TypeLengthValues::from(d.as_slice()))),
         Val::Type(_) => b.write_payloads(vs.iter().map(|v| TYPES[if let Val::Type(t) = v { *t } else { 0 }]).collect::<Vec<_>>()),
+        Val::Tlvs { .. } => b.write_payloads(vs.iter().zip(datas).map(|(v, d)| advanced(d.as_slice(), if let Val::Tlvs { advance, .. } = v { *advance } else { 0 }))),
     }
 }
 
@@ -730,8 +788,7 @@ pub fn op_values(op: &Op) -> Vec<Val> {
         Op::Payload { v, .. } => vec![v.clone()],
         Op::Payloads { vs, .. } => vs.clone(),
         Op::WriteTlv { kind, len, seed } => vec![Val::Tlv { kind: *kind, len: *len, seed: *seed }],
-        // the code the library itself assigns to the named type (C07 / C20 pin the codes to the registry)
-        Op::WriteTlvType { ty, len, seed } => vec![Val::Tlv { kind: u8::from(TYPES[*ty]), len: *len, seed: *seed }],
+        Op::WriteTlvType { ty, len, seed } => vec![Val::Tlv { kind: enc::TYPE_CODES[*ty].1, len: *len, seed: *seed }],
         _ => vec![],
     }
 }
